@@ -53,6 +53,7 @@ def zoo_case(draw, entry=None, small=False):
             c["coal"] = draw(st.sampled_from(["constant", "skygrid", "skyride", "exponential", "linear"]))
             c["theta"] = [draw(logu(0.5, 50.0)) for _ in range(4)]
             c["gmrf"] = draw(st.booleans())
+            c["gmrf_tree"] = draw(st.booleans())  # the time-aware smoothing prior of the skyride
             c["temperature"] = draw(st.sampled_from([None, None, 1e-4, 0.5]))  # the soft skygrid
         if e == "bdsk":
             m = draw(st.integers(1, 3))
@@ -142,7 +143,10 @@ def build_spec(c):
         spec.append({"id": "jointc", "type": "JointDistributionModel", "distributions": ["coal"]})
         targets = ["coal", "jointc"]
         if c["gmrf"] and theta_n >= 2:
-            spec.append({"id": "gmrf", "type": "GMRF", "x": "theta", "precision": tt.P("gmrf.precision", [0.7])})
+            gm = {"id": "gmrf", "type": "GMRF", "x": "theta", "precision": tt.P("gmrf.precision", [0.7])}
+            if m == "skyride" and c.get("gmrf_tree"):
+                gm["tree_model"] = "tree"
+            spec.append(gm)
             spec.append({"id": "joint", "type": "JointDistributionModel", "distributions": ["coal", "gmrf"]})
             targets += ["gmrf", "joint"]
     if e == "bdsk":
@@ -292,7 +296,8 @@ def classes(c):
     if e == "like":
         return "like:%s:%s:%s:%s" % (like["model"]["name"], like["site"]["kind"], like["tree"]["kind"], like["tree"].get("clock", {}).get("kind", "none"))
     if e == "coal":
-        return "coal:%s%s:%s" % (c["coal"], ":soft" if (c["coal"] == "skygrid" and c.get("temperature")) else "", like["tree"]["kind"])
+        return "coal:%s%s%s:%s" % (c["coal"], ":soft" if (c["coal"] == "skygrid" and c.get("temperature")) else "",
+                                     ":gmrf_tree" if (c["coal"] == "skyride" and c.get("gmrf") and c.get("gmrf_tree")) else "", like["tree"]["kind"])
     if e == "bdsk":
         return "bdsk:%s:m%d:%s%s" % (like["tree"]["kind"], len(c["bd"]["R"]), c["bd"]["rho"], ":constant" if c["bd"].get("constant") else "")
     return "prior:%s" % like["tree"]["kind"]
@@ -363,6 +368,10 @@ def subset_cases(tier):
         reps = 2 if tier == "quick" else 8
         for rep in range(reps):
             out.append({"entry": e, "k": sd * 1000 + rep * 17 + len(e)})
+    # fixed instances whose interesting subsets are rare in the random draw: the time-aware smoothing prior needs the
+    # field and the heights batched together
+    out.append({"entry": "coal", "k": sd * 1000 + 5, "force": {"coal": "skyride", "gmrf": True, "gmrf_tree": True, "ss": [3]}})
+    out.append({"entry": "coal", "k": sd * 1000 + 6, "force": {"coal": "skygrid", "gmrf": True, "temperature": 0.5, "ss": [2, 3]}})
     return out
 
 
@@ -379,6 +388,12 @@ def expand_subsets(tc):
 
     draw()
     c = box[-1]
+    c.update(tc.get("force", {}))
+    if "ss" in tc.get("force", {}):
+        nS = int(np.prod(c["ss"]))
+        c["u"] = (c["u"] * nS)[:nS] if len(c["u"]) < nS else c["u"][:nS]
+        # distinct rows for the samples
+        c["u"] = [[(x + 0.137 * k) % 0.998 + 0.001 for x in row] for k, row in enumerate(c["u"])]
     c["all_subsets"] = True
     return c
 
